@@ -79,4 +79,17 @@ theorem sphere_tm_is_exact (lat ω : ℝ) (h1 : -80 ≤ lat) (h2 : lat ≤ 84)
   obtain ⟨g1, _, g3⟩ := gauss_schreiber_def (PyR.radians lat) ω hω1 hω2
   exact ⟨g1, g3 hφ.1 hφ.2⟩
 
+/-- **size**: with the flattening (and the quantities derived from it) fixed, the un-scaled TM coordinates are proportional to the
+semi-major axis — the relation the C01 probe checks between two ellipsoids of the same flattening without an oracle -/
+theorem tm_scales_with_semimaj (ell : Ellipsoid) (c φ ω : ℝ) :
+    tmX { ell with semimaj := c * ell.semimaj } φ ω = c * tmX ell φ ω ∧
+    tmY { ell with semimaj := c * ell.semimaj } φ ω = c * tmY ell φ ω := by
+  have hr : rect_radius { ell with semimaj := c * ell.semimaj } = c * rect_radius ell := by
+    rw [rect_radius_formula, rect_radius_formula]
+    ring
+  have ha : alpha_coeff { ell with semimaj := c * ell.semimaj } = alpha_coeff ell := rfl
+  unfold tmX tmY tmEta tmXi
+  rw [hr, ha]
+  constructor <;> ring
+
 end GeodeVerif.C01
